@@ -543,8 +543,22 @@ def make_reject(rng, what):
                        "why": "basic and extended notation mixed"}}
 
 
+def set_mode_global(mode):
+    """the spelling helpers and the monitor read the module-level MODE"""
+    globals()["MODE"] = mode
+
+
 def run_case(ctx, repo, case):
+    set_mode_global(case.get("mode", "gregorian"))
     repo.set_mode(MODE)
+    try:
+        _run_case(ctx, repo, case)
+    finally:
+        repo.set_mode("gregorian")
+        set_mode_global("gregorian")
+
+
+def _run_case(ctx, repo, case):
     parser = ctx.cfgs.get(case["cfg"])
     local = tuple(case.get("local", (0, 0)))
     secs = (local[0] * 60 + local[1]) * 60
@@ -592,7 +606,9 @@ REAL_TZ = (("AAA-05:45", (5, 45)), ("BBB3:30", (-3, -30)),
 
 def workload(ctx, repo):
     rng = ctx.rng
-    reps = 10 if ctx.tier == "quick" else 30
+    reps = 12 if ctx.tier == "quick" else 30
+    for m in R.MODES:
+        ctx.target("mode/" + m)
     i = 0
     # 1. the cross product of complete forms
     for rep in gen.REPS:
@@ -610,8 +626,14 @@ def workload(ctx, repo):
                                 continue
                             local = rng.choice(((0, 0), (5, 45), (-3, -30),
                                                 (0, -30)))
+                            mode = R.MODES[r % 4] if r % 3 == 2 \
+                                else "gregorian"
+                            set_mode_global(mode)
                             case = make_full(rng, rep, ext, expanded, tform,
                                              zform, local=local)
+                            case["mode"] = mode
+                            set_mode_global("gregorian")
+                            ctx.cls("mode/" + mode)
                             if zform == "none" and r == 1 and \
                                     "assumed_time_zone" not in case["cfg"] \
                                     and not case["cfg"].get(
